@@ -20,7 +20,7 @@ RULE = (
     "The option matrix is enumerated. (A) backend level: config {metadata_path absent/same/different} x {memory_cache_mb absent/0.5/2} x {readonly absent/true/false} x explicit arguments "
     "{read_only None/True/False} x {memory_cache_mb None/1} x {path None/other} x construction {constructor with config, StorageBackend.create}; (B) cluster/environment level: storage type "
     "{filesystem, memory, null} x runner {absent, local, null} x readonly x cache (incl. fractional sizes) x metadata path x source {constructor objects, inline dict, JSON files, YAML file with jinja parameters; for a sample also with a base directory named 'R&D <team> 100%' passed as template parameter} "
-    "x 1-3 repositories defining the same cluster name in every priority order, each also rebuilt from Environment.to_dict(); (C) a live environment: every sequence of up to 4 (quick) / 5 (thorough) operations "
+    "x 1-3 repositories defining the same cluster name in every priority order, each also rebuilt from Environment.to_dict(); (C) a live environment: every sequence of up to 4 (quick) / 6 (thorough) operations "
     "{resolve cluster c, resolve d, prepend a repository defining c, prepend one defining d, append one defining c, append one defining c and d} after which each name must resolve to the first repository in the current priority order (or to nothing), also after a dump/rebuild. Oracle: differential on behaviour against the effective options computed "
     "by an independent model: files appear under the configured data/metadata roots (audit hook), a second read opens no file iff a cache of the configured size exists, memoize writes nothing and forget raises "
     "iff read-only, null/memory/filesystem storage and local/null runner behave as their type, get_cluster(name) is the first repository's cluster or None, the environment rebuilt from its dump passes the same probes "
@@ -483,7 +483,7 @@ def run_shard(ctx):
     stats = core.Stats()
     thorough = ctx.tier == "thorough"
     ex = lambda c: execute(c, ctx.scratch)  # noqa: E731
-    pts = list(points_a()) + list(points_b(thorough)) + list(points_c(5 if thorough else 4))
+    pts = list(points_a()) + list(points_b(thorough)) + list(points_c(6 if thorough else 4))
     complete = core.enum_search(pts, ex, stats, findings=ctx.findings, shard=ctx.shard, nshards=ctx.nshards,
                                 deadline_s=(ctx.deadline - time.time()) if ctx.deadline else None)
     stats.exhaustive = bool(complete)
